@@ -337,6 +337,12 @@ def gen_case(rng, nmax=20, force_cols=False):
                     pos += 1
                 tgt.insert(pos, row)
             dups += 1
+    if wholetext:
+        # (duplicate rows inserted above may have moved a fractional value into the first two rows of an input: the
+        # merger asserts equal column types, inferred from those rows — keep the option only when they agree)
+        kinds = {all(Fraction(s).denominator == 1 for s, _ in x[:2]) for x in inputs}
+        if len(kinds) > 1:
+            wholetext = False
     total = sum(len(x) for x in inputs)
     n_eff = max(len(x) for x in inputs)
     chunk = rng.choice([1, 1, 2, n_eff, n_eff + 1, rng.randint(1, n_eff + 1)])
@@ -541,6 +547,10 @@ def classify_cols(chk, c, r, resp, ix, info):
         else:
             chk.corr_break("mergecols-nokey", dict(info, model=model))
         return
+    if r["exc"] is not None and c.get("wholetext") and "Column types do not match" in r["exc"]:
+        # the merger's own precondition (equal column types, which the text reader infers from the first two rows)
+        chk.reject("inputs-with-different-inferred-column-types")
+        return
     if r["exc"] is not None:
         chk.spec_violation(f"exception:{entry}:columns:{r['exc'].split(':')[0]}",
                            dict(info, clause="the merge raised although the selection keeps the priority column"))
@@ -665,6 +675,10 @@ def classify(chk, c, r, resp, ix, tally=True):
         classify_cols(chk, c, r, resp, ix, info)
         return
     # --- the property promises success on every non-empty input family ---------
+    if r["exc"] is not None and c.get("wholetext") and "Column types do not match" in r["exc"]:
+        # the merger's own precondition (equal column types, which the text reader infers from the first two rows)
+        chk.reject("inputs-with-different-inferred-column-types")
+        return
     if r["exc"] is not None:
         chk.spec_violation(f"exception:{entry}:{r['exc'].split(':')[0]}",
                            dict(info, clause="the merge raised on inputs inside the property's quantifier"))
